@@ -136,6 +136,20 @@ def _extract_block(blk):
     return src[a:cb + 1], src.count("\n", 0, a) + 1
 
 
+def _region(t, f, src, masked):
+    """statement region: the function body, or (with `inside = <header regex>`) the interior of the first block in the
+    function whose header matches -- a loop body, a closure body, an `unsafe` block"""
+    if not t.get("inside"):
+        return f.body_open, f.body_close
+    lo, hi = f.body_open, f.body_close
+    for hdr in (t["inside"] if isinstance(t["inside"], list) else [t["inside"]]):
+        try:
+            _, lo, hi = rustscan.find_block(src, masked, hdr, lo, hi)
+        except rustscan.ScanError:
+            raise Broken("enclosing block %r not found in %s::%s" % (hdr, t["file"], t["fn"]))
+    return lo, hi
+
+
 def _extract_head(t):
     """The statements of a function from the start of its body up to (excluding) the first depth-0 match of `end`."""
     src = read(os.path.join(REPO, t["file"]))
@@ -144,7 +158,8 @@ def _extract_head(t):
     except rustscan.ScanError as e:
         raise Broken("lost anchor %s in %s: %s" % (t["fn"], t["file"], e))
     masked = rustscan.mask(src)
-    region_m = masked[f.body_open + 1:f.body_close]
+    lo, hi = _region(t, f, src, masked)
+    region_m = masked[lo + 1:hi]
     depth, depth_at = 0, []
     for ch in region_m:
         depth_at.append(depth)
@@ -155,8 +170,8 @@ def _extract_head(t):
     hit = next((m for m in re.finditer(t["end"], region_m) if depth_at[m.start()] == 0), None)
     if hit is None:
         raise Broken("head end %r not found at statement level in %s::%s" % (t["end"], t["file"], t["fn"]))
-    b = f.body_open + 1 + hit.start()
-    return "{ " + src[f.body_open + 1:b] + (t.get("tail", "")) + " }", f.line
+    b = lo + 1 + hit.start()
+    return "{ " + src[lo + 1:b] + (t.get("tail", "")) + " }", src.count("\n", 0, lo) + 1
 
 
 def _extract_tail(t):
@@ -167,7 +182,11 @@ def _extract_tail(t):
     except rustscan.ScanError as e:
         raise Broken("lost anchor %s in %s: %s" % (t["fn"], t["file"], e))
     masked = rustscan.mask(src)
-    region_m = masked[f.body_open + 1:f.body_close]
+    lo, hi = _region(t, f, src, masked)
+    if not t.get("start"):
+        # the whole interior of the enclosing block
+        return "{ " + src[lo + 1:hi] + " }", src.count("\n", 0, lo) + 1
+    region_m = masked[lo + 1:hi]
     depth, depth_at = 0, []
     for ch in region_m:
         depth_at.append(depth)
@@ -178,8 +197,8 @@ def _extract_tail(t):
     hit = next((m for m in re.finditer(t["start"], region_m) if depth_at[m.start()] == 0), None)
     if hit is None:
         raise Broken("tail start %r not found at statement level in %s::%s" % (t["start"], t["file"], t["fn"]))
-    a = f.body_open + 1 + hit.start()
-    return "{ " + src[a:f.body_close] + " }", src.count("\n", 0, a) + 1
+    a = lo + 1 + hit.start()
+    return "{ " + src[a:hi] + " }", src.count("\n", 0, a) + 1
 
 
 def _falsify(contract):
@@ -221,7 +240,9 @@ def assemble(unit, vacuity=False):
                 pass
             f = _F()
             f.line = line
-            fn = dict(fn, name="head until " + fn["end"])
+            fn = dict(fn, name="head until " + fn["end"] + ((" inside " + str(fn["inside"])) if fn.get("inside") else ""))
+            if fn.get("prelude"):       # rebinding of a by-value `mut` parameter (Verus has no `mut` parameters)
+                body_raw = "{ " + fn["prelude"] + " " + body_raw + " }"
             raw = fn["sig"] + " " + body_raw
         elif fn["_kind"] == "tail":
             body_raw, line = _extract_tail(fn)
@@ -230,7 +251,9 @@ def assemble(unit, vacuity=False):
                 pass
             f = _F()
             f.line = line
-            fn = dict(fn, name="tail from " + fn["start"])
+            fn = dict(fn, name="tail from " + fn.get("start", "<block start>") + ((" inside " + str(fn["inside"])) if fn.get("inside") else ""))
+            if fn.get("prelude"):
+                body_raw = "{ " + fn["prelude"] + " " + body_raw + " }"
             raw = fn["sig"] + " " + body_raw
         elif fn["_kind"] == "block":
             body_raw, line = _extract_block(fn)
